@@ -26,7 +26,8 @@ func (Prop) Configs(tier string) []string {
 }
 func (Prop) SelfTest() error { return sm9ref.SelfTest() }
 func (Prop) Rule() string {
-	return "E2 over the scalar alphabet S = {0..40, n-3..n+3, 2^k, 2^k±1 (k<256), every 4-bit window value at each of the 64 window positions, 2^256-1; thorough tier: plus every byte value at each of the 32 byte positions} " +
+	return "Operand integrity: every exported operation taking G1/G2/GT elements as input (Add, Double, Neg, ScalarMult, Set, Equal, IsOnCurve, the encoders, String, Pair, Miller, ScalarMultGT, GenerateGTFieldTable) leaves each input semantically unchanged, for inputs in every representation the API produces (fresh = projective results of ScalarBaseMult/ScalarMult/Add/Neg, decoded = affine); encoder routes: compressed / uncompressed / plain encodings of fresh results are canonical and consistent with each other. " +
+		"E2 over the scalar alphabet S = {0..40, n-3..n+3, 2^k, 2^k±1 (k<256), every 4-bit window value at each of the 64 window positions, 2^256-1; thorough tier: plus every byte value at each of the 32 byte positions} " +
 		"(all 32-byte scalars the API admits, including values >= n): for every k in S, G1: ScalarBaseMult(k), ScalarMult(Gen1,k) (32-byte and minimal-length scalar), " +
 		"ScalarMult(P3,k) and the compressed/uncompressed encodings equal exact affine big-integer arithmetic on y^2=x^3+5 with k mod n; " +
 		"G2: ScalarBaseMult(k) = ScalarMult(Gen2,k) = plain double-and-add over the bits of (k mod n) built from G2.Add only, same for a second base point, results on the twist (reference F_p^2); " +
@@ -235,6 +236,7 @@ func g2Ladder(base *vh.G2, k *big.Int) *vh.G2 {
 // ---------------------------------------------------------------------------------------------
 
 func (Prop) Run(c *engine.Ctx) {
+	runIntegrity(c)
 	runAnchors(c)
 	runScalarLaws(c)
 	runPairLaws(c)
